@@ -52,13 +52,14 @@ def avgFactor (c : BNCfg α) (s : BNState α) : α × Nat :=
     (match c.momentum with | none => 1 / (nbt : α) | some m => m, nbt)
   else ((match c.momentum with | none => 0 | some m => m), s.nbt)
 
-/-- one forward call.  `none` = rejected (training batch with a single value per channel). -/
-def bnForward (c : BNCfg α) (s : BNState α) (xs : List (List α)) : Option (List (List α) × BNState α) :=
+/-- one forward call.  The output is `none` when the call is rejected (batch statistics over a
+    single value per channel); as in the code (and in PyTorch) the counter has already been
+    advanced by then, so the state is returned in both cases. -/
+def bnForward (c : BNCfg α) (s : BNState α) (xs : List (List α)) : Option (List (List α)) × BNState α :=
   let (f, nbt) := avgFactor c s
   let useBatch := s.training || !c.track      -- `bn_training`
   let n := (xs.head?.map List.length).getD 0
-  if useBatch && s.training && n ≤ 1 then none
-  else if !s.training && !c.track && false then none
+  if useBatch && n ≤ 1 then (none, { s with nbt := nbt })
   else
     let chan := fun (k : Nat) (x : List α) =>
       let m := if useBatch then mean x else s.rm.getD k 0
@@ -69,7 +70,7 @@ def bnForward (c : BNCfg α) (s : BNState α) (xs : List (List α)) : Option (Li
     let nn : α := (n : α)
     let rm' := if upd then r.zipIdx.map (fun ((_, m, _), k) => m * f + s.rm.getD k 0 * (1 - f)) else s.rm
     let rv' := if upd then r.zipIdx.map (fun ((_, _, v), k) => (v * (nn / (nn - 1))) * f + s.rv.getD k 1 * (1 - f)) else s.rv
-    some (r.map (·.1), { s with rm := rm', rv := rv', nbt := nbt })
+    (some (r.map (·.1)), { s with rm := rm', rv := rv', nbt := nbt })
 
 /-! ### Dropout -/
 variable [LE α] [DecidableLE α] [LT α] [DecidableLT α]
